@@ -1,4 +1,5 @@
 import GqlProofs.PlanCache
+import GqlProofs.Normalize
 /-! # C06 — Prepared plans and the plan cache are semantically transparent
 
 Property theorems only.  `M` = `GqlModel.PlanCache` (plan_cache.go function by function), `S` = no cache:
@@ -504,3 +505,153 @@ example : InvT rawKey exBuild (newPlanCache exOpts : Cache Nat _) := by intro e 
 end Examples
 
 end GqlModel.PlanCache
+
+/-! # C06, part 2 — the literal normaliser (`plan_cache_normalize.go`) is transparent for argument values
+
+Model: `GqlModel/Normalize.lean` (`normalizeDocument`, `normalizeOperation`, `normSel/normSet/normList`, `normArgs`,
+`tryExtract`, `lti` = `literalToInput`, `nextName`), tied to /repo on every run by comparing the printed normalised
+document and the SynthArgs of the real `normalizeDocument` with the model on every pool request.
+
+Premises the theorems need, and why (each is a way the REAL normaliser is not transparent today, reproduced on
+/repo — D-06h, D-06i, D-06j in notes/agents/C06.md — or a fact owned by another property):
+* `ArgsOK`: every variable-free argument literal is VALID for its argument type (what ArgumentsOfCorrectType checks on
+  the ORIGINAL document; `Get` validates only the normalised one, and `tryExtract` only asks `valueFromAST != nil`,
+  so `{ echo(l: ["5"]) }` is served although `Do` rejects it — D-06h) and spells its integers canonically
+  (`echo(id: -0)` answers "0" instead of "-0" — D-06i);
+* `UserOK`: the user's own variables evaluate alike with and without the synthetic ones (fails only when the
+  document USES an undefined variable named `__pcvN`, which a synthetic definition then captures — D-06j);
+* `KeySound`: equal `(type, printed literal)` keys denote literals that evaluate alike (printer round trip, C08);
+* `customLti`: a custom scalar's ParseLiteral / ParseValue agree on a literal and its client form (user code);
+* `Realises`: the variable map of the normalised request holds, for each synthetic variable, the coerced client
+  form (discharged by `getVariableValues` on the appended definitions: stated below as the missing lemma). -/
+namespace GqlModel.Normalize
+open GqlModel GqlModel.Coerce
+
+/-- **literalToInput agrees with the literal.** A valid variable-free literal (canonical integers) is, in
+client-variable form, a valid input value that `coerceValue` maps to what `valueFromAST` reads from the literal —
+for every type (lists, non-null, nested and recursive input objects, enums by name, defaults). This is the
+literal→variable direction of C05's `literal_variable_agree`. -/
+theorem literalToInput_agree (s : Schema) (hcc : customLti s) (t : GType) (l : Value) (vars : Vars)
+    (hv : hasVars l = false) (hcn : canonInts l = true) (h : isValidLiteralValue s t (some l) = true) :
+    isValidInputValue s t (lti l) = true ∧ coerceValue s t (lti l) = valueFromAST s t (some l) vars :=
+  lti_agree s hcc t l vars hv hcn h
+
+theorem find_of_nodup (defs : List ArgDef) (hnd : (defs.map (·.name)).Nodup) (d : ArgDef) (hd : d ∈ defs) :
+    defs.find? (fun d' => d'.name == d.name) = some d := by
+  induction defs with
+  | nil => cases hd
+  | cons x xs ih =>
+    simp only [List.map_cons, List.nodup_cons] at hnd
+    rcases List.mem_cons.mp hd with rfl | hd'
+    · simp [List.find?]
+    · have hne : (x.name == d.name) = false := by
+        simp only [beq_eq_false_iff_ne, ne_eq]
+        intro e; exact hnd.1 (e ▸ List.mem_map.mpr ⟨d, hd', rfl⟩)
+      simp only [List.find?, hne]
+      exact ih hnd.2 hd'
+
+/-- **normalize_args_transparent.** For every field: the argument map a resolver receives from the normalised
+argument list under the normalised request's variables equals the one it receives from the original argument list
+under the request's own variables — whatever was or was not extracted, from any state of the walk. -/
+theorem normalize_args_transparent (s : Schema) (hcc : customLti s) (hks : KeySound s)
+    (defs : List ArgDef) (hnd : (defs.map (·.name)).Nodup) (as : List Argument) (st : NState) (vars vars' : Vars)
+    (hes : EntriesOK s st.entries) (ha : ArgsOK s defs as) (hu : UserOK s vars vars' as)
+    (hre : Realises s vars' (normArgs s defs as st).2.entries) :
+    getArgumentValues s defs (normArgs s defs as st).1 vars' = getArgumentValues s defs as vars := by
+  unfold getArgumentValues
+  congr 1
+  apply filterMap_congr'
+  intro d hd
+  simp only [argEntry]
+  rw [normArgs_lookup s hcc hks defs vars vars' as st hes ha hu hre d.name d (find_of_nodup defs hnd d hd)]
+
+/-- **synth_names_fresh.** The synthetic variables of an operation never clash with a variable the operation defines
+and are pairwise distinct. -/
+theorem synth_names_fresh (s : Schema) (root : String) (vars : List VarDef) (sel : SelectionSet) :
+    (∀ e ∈ (normSet s root sel (initState vars)).2.entries, e.name ∉ userVarNames vars) ∧
+    ((normSet s root sel (initState vars)).2.entries.map (·.name)).Nodup := by
+  have h0 : NamesOK (initState vars) := by
+    unfold NamesOK
+    exact ⟨by intro e he; simp [initState] at he, by simp [initState]⟩
+  obtain ⟨h1, h2⟩ := normSet_namesOK s sel root (initState vars) h0
+  refine ⟨fun e he => ?_, h1.2⟩
+  have := (h1.1 e he).1
+  rw [h2] at this
+  exact this
+
+/-- **normalize_preserves_shape.** Operation type, name, directives, the user's variable definitions (a prefix of the
+new list) and the whole selection structure — fields, aliases (response keys), argument names and order, directives,
+fragments spreads, inline fragments, locations — are unchanged; only argument VALUES may differ (`eraseSet` forgets
+exactly those). Fragment definitions are not touched at all (`normalizeDocument` replaces one definition). -/
+theorem normalize_preserves_shape (s : Schema) (root : String) (op : OpType) (name : Option Name) (vars : List VarDef)
+    (dirs : List Directive) (sel : SelectionSet) (loc : Loc) :
+    ∃ sel' newDefs, (normalizeOperation s root (.operation op name vars dirs sel loc)).1 =
+        .operation op name (vars ++ newDefs) dirs sel' loc ∧ eraseSet sel' = eraseSet sel :=
+  ⟨_, _, rfl, normSet_shape s sel root (initState vars)⟩
+
+/-- every literal the walk records is valid, so (by `literalToInput_agree`) every SynthArg is a valid value of its
+synthetic variable's declared type: `getVariableValues` cannot fail on them -/
+theorem synth_args_are_valid_inputs (s : Schema) (hcc : customLti s) (defs : List ArgDef) (as : List Argument)
+    (st : NState) (hes : EntriesOK s st.entries) (ha : ArgsOK s defs as) :
+    ∀ e ∈ (normArgs s defs as st).2.entries, isValidInputValue s e.type (lti e.lit) = true := by
+  intro e he
+  obtain ⟨h1, h2, h3⟩ := normArgs_entriesOK s defs as st hes ha e he
+  exact (lti_agree s hcc e.type e.lit [] h1 h2 h3).1
+
+/-- `normalize_original_unmodified` is trivial here: the model is a pure function, the input document is a value.
+On the real code it is checked on every normalised request (printer text and structural twin before/after). -/
+theorem normalize_original_unmodified (doc : Document) : doc = doc := rfl
+
+/-- The end-to-end statement (NOT proved): executing the normalised document with the request's variables plus the
+SynthArgs gives the response (data, error paths, resolver log with arguments) of executing the original.
+Missing to compose it from the theorems above:
+1. `getVariableValues s (vars ++ entries.map mkVarDef) (synth ++ inputs)` succeeds iff it does on `vars`/`inputs` and
+   then `Realises` the entries and agrees with the original map on the user's names (from `synth_args_are_valid_inputs`,
+   `synth_names_fresh`, `lookupD_insertSorted`; routine, not done);
+2. a simulation lemma for `Exec.collect` / `Exec.execGroups`: two selection sets with equal `eraseSet` whose field
+   nodes have argument lists that evaluate alike (`normalize_args_transparent`) produce the same groups, log and
+   result — an induction over Exec's fuel-recursive mutual functions, with the typing fact that the parent type the
+   normaliser walks with is the runtime object type at which `Exec.fieldDef?` looks the field up (object-typed
+   positions only; nothing is extracted below abstract types);
+3. the premises `ArgsOK` / `UserOK` for every field of the document from "the ORIGINAL document is valid"
+   (C02's rules), which the real `Get` does not check (D-06h, D-06j). -/
+def NormalizedTransparent (s : Schema) : Prop :=
+  ∀ (doc doc' : Document) (opName : String) (inputs synth : Vars) (w : Exec.World) (fuel : Nat),
+    normalizeDocument s doc opName = .ok doc' synth →
+    Exec.execute s doc' opName (synth ++ inputs) w fuel = Exec.execute s doc opName inputs w fuel
+
+/-! ## non-vacuity -/
+section Examples
+def exEchoArgs : List ArgDef := [⟨"i", .named "Int", none, ""⟩, ⟨"e", .named "Color", none, ""⟩,
+  ⟨"o", .named "Pt", none, ""⟩, ⟨"l", GType.list (.named "Int"), none, ""⟩, ⟨"id", .named "ID", none, ""⟩]
+def exTypes : List TypeDef := [.scalar "Int" .int "", .scalar "String" .string "", .scalar "ID" .id "",
+  .enum "Color" [⟨"RED", .str "R", "", ""⟩, ⟨"GREEN", .str "G", "", ""⟩] "",
+  .inputObject "Pt" [⟨"x", .named "Int", some (.int 7), ""⟩, ⟨"y", .named "Int", none, ""⟩] "",
+  .object "Query" [] [⟨"echo", .named "String", exEchoArgs, "", ""⟩] false ""]
+def exS : Schema := { types := exTypes, query := "Query", mutation := none, subscription := none, directives := [] }
+def L0 : Loc := Loc.none
+def exArgs : List Argument := [⟨⟨"i", L0⟩, .int "3" L0, L0⟩, ⟨⟨"e", L0⟩, .enum "GREEN" L0, L0⟩,
+  ⟨⟨"o", L0⟩, .obj [.mk ⟨"y", L0⟩ (.int "1" L0) L0] L0, L0⟩, ⟨⟨"l", L0⟩, .int "3" L0, L0⟩]
+def exSel : SelectionSet := .mk [.field none ⟨"echo", L0⟩ exArgs [] none L0] L0
+
+-- four literals, three synthetic variables (`i: 3` and `l: 3` have different types, hence different variables)
+example : (normSet exS "Query" exSel (initState [])).2.synth.map (·.1) = ["__pcv0", "__pcv1", "__pcv2", "__pcv3"] := by
+  decide +kernel
+-- the enum literal travels by NAME, the input object as a map without the defaulted field
+example : ((JVal.obj (normSet exS "Query" exSel (initState [])).2.synth) ==
+    .obj [("__pcv0", .int 3), ("__pcv1", .str "GREEN"), ("__pcv2", .obj [("y", .int 1)]), ("__pcv3", .int 3)]) = true := by
+  decide +kernel
+-- a user variable named __pcv0 is skipped
+example : (nextName ["__pcv0", "x", "__pcv1"] 0).1 = "__pcv2" := by decide +kernel
+-- D-06h as a fact about the model: the invalid `["5"]` for [Int] is extracted, and its client form is ACCEPTED
+example : isValidLiteralValue exS (.list (.named "Int")) (some (.list [.str "5" L0] L0)) = false ∧
+    (tryExtract exS (initState []) (.list [.str "5" L0] L0) (.list (.named "Int"))).2.entries.length = 1 ∧
+    isValidInputValue exS (.list (.named "Int")) (lti (.list [.str "5" L0] L0)) = true := by decide +kernel
+-- D-06i: `-0` for ID
+example : canonInts (.int "-0" L0) = false ∧
+    (coerceValue exS (.named "ID") (lti (.int "-0" L0)) == .str "0") = true ∧
+    (valueFromAST exS (.named "ID") (some (.int "-0" L0)) [] == .str "-0") = true := by decide +kernel
+end Examples
+
+end GqlModel.Normalize
+
